@@ -39,18 +39,21 @@ type Ctx struct {
 	LibPkgs     []string
 	ClientFuncs []*ssa.Function // functions of the client packages (test, demo), loaded on demand
 
-	eff     *effEngine
-	rng     *rangeEngine
+	eff *effEngine
+	rng *rangeEngine
 	// solarTableOK: R04.8 followed NewSolar over its decision table without a deviation; solarTableRun: it has run
 	solarTableOK, solarTableRun bool
 	// solarTableMonthsOK: on none of those walks was GetDaysOfMonth handed a month outside 1..12
 	solarTableMonthsOK bool
+	// dtCalcOK: R03.9 followed dtCalc for every ordering of the year against the knots without a deviation (and
+	// without a read outside the table); dtCalcRun: it has run
+	dtCalcOK, dtCalcRun bool
 	// starTableOK: the star accessors R16.5 followed over their whole input domain without a deviation (every
 	// value it states is an index 0..8); nil until R16.5 has run on this tree
 	starTableOK map[*ssa.Function]bool
-	scratch map[string]interface{}
-	tables  *tableEval
-	declDoc map[*ssa.Function]string
+	scratch     map[string]interface{}
+	tables      *tableEval
+	declDoc     map[*ssa.Function]string
 }
 
 // library packages: everything in the module except the client packages.
